@@ -13,6 +13,7 @@ import (
 
 	"github.com/ory/keto/internal/check"
 	"github.com/ory/keto/internal/check/checkgroup"
+	"github.com/ory/keto/internal/namespace"
 	"github.com/ory/keto/internal/schema"
 )
 
@@ -24,6 +25,8 @@ type checkCase struct {
 	Queries []string `json:"queries"`
 	tuples  []*Tup
 	queries []*Tup
+
+	failOpenSeen map[int]bool
 }
 
 // genCheckCase builds the C01-family case of index idx.
@@ -403,15 +406,9 @@ func errClass(e string) string {
 	return e
 }
 
-// shrinkNeeds determines which operator kinds are necessary for the mismatch:
-// it greedily simplifies the configuration (replace a composite expression by
-// one of its operands, `!x` by x) and drops tuples while the mismatch
-// (same direction) persists, and reports the operators left in the queried
-// relation's reachable expressions. Bounded and deterministic up to storage order
-// (each candidate is tried on 2 fresh insertions).
+// shrinkNeeds determines which operator kinds are necessary for the mismatch
+// (see shrinkAndClassify).
 func shrinkNeeds(run *runner, cc *checkCase, cfg *Cfg, m modeSpec, q *Tup, maxDepth int, implAllowed bool) string {
-	cur := cloneCfg(cfg)
-	tuples := append([]*Tup(nil), cc.tuples...)
 	still := func(c *Cfg, ts []*Tup) bool {
 		rr := newRefSem(c, m.strict, ts).Check(q)
 		if rr.Unstratified || rr.SchemaError || rr.Member == implAllowed {
@@ -455,7 +452,20 @@ func shrinkNeeds(run *runner, cc *checkCase, cfg *Cfg, m modeSpec, q *Tup, maxDe
 		}
 		return false
 	}
-	budget := 60
+	needs, _, _ := shrinkAndClassify(cfg, cc.tuples, q, still, 60)
+	return needs
+}
+
+// shrinkAndClassify greedily simplifies a failing case while `still` holds
+// (drop tuples, replace a composite expression by one of its operands, `!x` by
+// x, drop operands) and reports which of {and, not, perm-tuple} remain
+// necessary: the operators left in the expressions reachable from the query,
+// and whether a relationship written directly on a permission is needed.
+// Bounded (budget = number of `still` evaluations) and deterministic up to
+// what `still` itself depends on.
+func shrinkAndClassify(cfg *Cfg, tuplesIn []*Tup, q *Tup, still func(*Cfg, []*Tup) bool, budget int) (string, *Cfg, []*Tup) {
+	cur := cloneCfg(cfg)
+	tuples := append([]*Tup(nil), tuplesIn...)
 	// 1. drop tuples
 	for i := 0; i < len(tuples) && budget > 0; {
 		cand := append(append([]*Tup(nil), tuples[:i]...), tuples[i+1:]...)
@@ -530,7 +540,6 @@ func shrinkNeeds(run *runner, cc *checkCase, cfg *Cfg, m modeSpec, q *Tup, maxDe
 		}
 		walk(rd.Rewrite)
 	}
-	// every relation may be reached through subject-set expansion: visit all
 	visit(q.Namespace, q.Relation)
 	for _, t := range tuples {
 		if t.SubjectSet != nil {
@@ -557,9 +566,9 @@ func shrinkNeeds(run *runner, cc *checkCase, cfg *Cfg, m modeSpec, q *Tup, maxDe
 		out = append(out, "perm-tuple")
 	}
 	if len(out) == 0 {
-		return "none"
+		return "none", cur, tuples
 	}
-	return strings.Join(out, "+")
+	return strings.Join(out, "+"), cur, tuples
 }
 
 func simplifications(e *Expr) []*Expr {
@@ -618,4 +627,19 @@ func cloneCfg(c *Cfg) *Cfg {
 		out.NS = append(out.NS, nn)
 	}
 	return out
+}
+
+// parseOPL wraps schema.Parse (guarded: a parser panic is C12's business).
+func parseOPL(text string) (nn []namespace.Namespace, errs []string) {
+	pt := guard(func() {
+		n, ee := schema.Parse(text)
+		nn = n
+		for _, e := range ee {
+			errs = append(errs, e.ToAPI().Message)
+		}
+	})
+	if pt != "" {
+		return nil, []string{"panic: " + pt}
+	}
+	return nn, errs
 }
